@@ -185,12 +185,36 @@ def check_parse_curie_delimiter(cx: Cx, ob: Ob) -> None:
     me = ("param", fn.self_name)
     if not hits:
         # maybe partitions directly
-        direct = [c for c, _, _ in s.calls() if callee_name(c) in ("partition", "split", "rpartition", "rsplit") and op(c[1]) == "attr" and c[1][1] == ("param", "curie")]
+        direct = [c for c, _, _ in s.calls() if callee_name(c) in ("partition", "split", "rpartition", "rsplit", "find", "index", "rfind", "rindex") and op(c[1]) == "attr" and c[1][1] == ("param", "curie")]
         if not direct:
             ob.undecide("parse_curie neither calls _split nor partitions its argument")
             return
         for c in direct:
             ob.site(fn, f"curie.{callee_name(c)}(...)")
+            if callee_name(c) in ("find", "index"):
+                # head = curie[:i], tail = curie[i + len(delimiter):] with i the position of the first delimiter
+                if c[2][:1] != (("attr", me, "delimiter"),):
+                    ob.violate(fn.qualname, fn.where, f"parse_curie searches `{show(c[2][0]) if c[2] else '?'}`, not self.delimiter", detail="sep")
+                lend = ("call", ("builtin", "len"), (("attr", me, "delimiter"),), ())
+                tails = 0
+                for t_, ev_, _ in s.all_terms():
+                    for x in subterms(t_):
+                        if op(x) == "slice" and x[1] == ("param", "curie") and op(x[2]) == "bin" and x[2][1] == "+" and c in (x[2][2], x[2][3]):
+                            other = x[2][3] if x[2][2] == c else x[2][2]
+                            tails += 1
+                            if is_const(other) and isinstance(other[1], int):
+                                ob.violate(
+                                    fn.qualname,
+                                    where(fn, ev_.line),
+                                    f"the identifier starts {other[1]} character(s) after the delimiter's position, not len(self.delimiter): wrong for every delimiter that is not exactly {other[1]} character(s) long",
+                                    witness="Converter(..., delimiter='::').expand('ex::1') keeps a ':' in front of the identifier",
+                                    detail="tail-offset",
+                                )
+                            elif other != lend:
+                                ob.undecide(f"parse_curie cuts the identifier at `{show(x[2])[:50]}`")
+                if not tails:
+                    ob.undecide("parse_curie locates the delimiter with find/index but the identifier slice was not recognised")
+                continue
             if callee_name(c) != "partition":
                 ob.violate(fn.qualname, fn.where, f"parse_curie splits with str.{callee_name(c)}", detail="split-method")
             if c[2][:1] != (("attr", me, "delimiter"),):
